@@ -31,7 +31,10 @@ def tasks(tier, seed):
                 t = dict(es[i])
                 t["table"] = f
                 tabs.append(t)
-    cat = cat + tabs
+    # the same settings through the public entry point (inv.read_setting on a fresh object): the glue between request,
+    # response and decoder (read vs read_value, request window) is part of "its own registers"
+    pubs = [dict(e, public=True) for e in cat if e["kind"] == "setting" and S.WIDTH.get(e["cls"])]
+    cat = cat + tabs + pubs
     n = 48 if tier == "quick" else 120
     ts = [{"name": f"sensors-{i}", "entries": cat[i::n]} for i in range(n) if cat[i::n]]
     if errs:
